@@ -134,6 +134,11 @@ def str_cat(a, b):
     return ('cat', out)
 
 
+def _is_string_type(t):
+    t = t.replace('const ', '').strip()
+    return t.startswith('std::basic_string<') or t.startswith('std::__cxx11::basic_string<') or t in ('std::string',)
+
+
 class Vec:
     """A sequence container (std::vector) of abstract objects."""
 
@@ -208,6 +213,7 @@ class Interp:
         self.moves = []
         self.null_derefs = []
         self.sym_range = {}
+        self.pointer_model = False     # when set, std::string::data()/c_str() yield ('ptr', buffer, offset) values
 
     # -- helpers --------------------------------------------------------------------------------
     def consume(self, v, env=None):
@@ -706,6 +712,12 @@ class Interp:
             real = [c for c in ch if c['kind'] != 'CXXDefaultArgExpr']
             if len(real) == 1:
                 return self.expr(real[0], env)
+            if len(real) == 2 and _is_string_type(dqt(n)):
+                a, b = self.expr(real[0], env), self.expr(real[1], env)
+                if isinstance(a, IV) and a.concrete() and isinstance(b, IV) and b.concrete():
+                    return ('str', chr(b.lo & 0xFF) * a.lo)       # std::string(count, ch)
+            if not real and _is_string_type(dqt(n)):
+                return ('str', '')
             return ('temp', qt(n))
         if k == 'UnaryExprOrTypeTraitExpr':
             at = (n.get('argType') or {}).get('qualType')
@@ -771,6 +783,10 @@ class Interp:
         raise AnalysisBroken('arith ' + op)
 
     def binop(self, op, a, b, n):
+        if isinstance(a, tuple) and a[:1] == ('ptr',) and isinstance(b, IV) and op in ('+', '-'):
+            if not b.concrete():
+                raise NeedSplit(None, 'pointer offset not concrete at %s' % pos(n))
+            return ('ptr', a[1], a[2] + (b.lo if op == '+' else -b.lo))
         if not (isinstance(a, IV) and isinstance(b, IV)):
             if op in ('==', '!='):
                 eq = (a is b) or (a == b)
@@ -984,6 +1000,31 @@ class Interp:
                 return a
             raise AnalysisBroken('unsupported operator call %s at %s' % (name, pos(n)))
         if kind == 'function':
+            if name == 'memcpy' and len(args) == 3:
+                src = self.expr(args[1], env)
+                cnt = self.expr(args[2], env)
+                if isinstance(src, tuple) and src[:1] == ('ptr',) and isinstance(cnt, IV) and cnt.concrete():
+                    buf, off = src[1], src[2]
+                    val = 0
+                    known = True
+                    for i_ in range(cnt.lo):
+                        j_ = off + i_
+                        if 0 <= j_ < len(buf):
+                            val |= (ord(buf[j_]) & 0xFF) << (8 * i_)
+                        elif j_ == len(buf):
+                            pass        # the terminating NUL of std::string
+                        else:
+                            self.ub_event('read-past-end-of-buffer(byte %d of a %d-byte string)' % (j_, len(buf)), n)
+                            known = False
+                    dst = strip_noncast(args[0])
+                    while dst['kind'] in ('ImplicitCastExpr', 'CStyleCastExpr', 'CXXReinterpretCastExpr', 'CXXStaticCastExpr'):
+                        dst = strip_noncast(children(dst)[-1])
+                    if dst['kind'] == 'UnaryOperator' and dst.get('opcode') == '&':
+                        lv = self.lval(children(dst)[0], env)
+                        w_ = 8 * cnt.lo
+                        self.store(lv, const(w_, False, val) if known else IV(w_, False, 0, (1 << w_) - 1), env)
+                        return None
+                raise AnalysisBroken('unmodelled memcpy at %s' % pos(n))
             if name == 'abs':
                 v = self.expr(args[0], env)
                 tlo, thi = rng(v.w, True)
@@ -1078,6 +1119,8 @@ class Interp:
                     k_ = k_[1] if isinstance(k_, tuple) else k_
                     return const(64, False, 1 if k_ in o else 0)
                 raise AnalysisBroken('unmodelled map operation %s at %s' % (name, pos(n)))
+            if isinstance(o, tuple) and o and o[0] == 'str' and name in ('c_str', 'data') and self.pointer_model:
+                return ('ptr', o[1], 0)
             if isinstance(o, tuple) and o and o[0] in ('str', 'cat', 'num', 'fmt') and name in ('c_str', 'str', 'data'):
                 return o
             if isinstance(o, tuple) and o and o[0] == 'str' and name in ('size', 'length'):
